@@ -25,6 +25,9 @@ from .core import SymNum, SymBool, Unsupported, is_sym
 
 VERIF = os.path.dirname(os.path.dirname(os.path.abspath(__file__)))
 EXIT_OK, EXIT_VIOLATION, EXIT_INCONCLUSIVE = 0, 1, 2
+# evidence of the registered commands always goes to /verif/evidence; the override is only used when a check is pointed at a scratch
+# tree with a seeded change (VERIF_REPO=...), so that the committed evidence is not overwritten
+EVIDENCE_DIR = os.environ.get('VERIF_EVIDENCE_DIR') or os.path.join(os.path.dirname(os.path.dirname(os.path.abspath(__file__))), 'evidence')
 CONC_TOL = 1e-8
 CONCRETE_RUN_LIMIT_S = 60.0
 VALIDATION_RETRIES = 4
@@ -535,9 +538,24 @@ def run_job(job, seed=0):
             outcome = None
             first_mismatch = None
             vals = tables = None
+            first_goalfail = None
+            proved_here = {}
+            for g in pr.goals:
+                proved_here[g.label] = proved_here.get(g.label, True) and g.status in ('proved', 'trivial')
             while m is not None:
                 vals, tables = _values_from_model(ctx, S, m)
                 outcome, info = _validate_once(job, ctx, m, vals, tables)
+                if outcome == 'violation' and info[2] is None and proved_here.get(info[0], False):
+                    # The goal is proved for ALL real inputs of this path, yet the float run at this particular model misses it by more than
+                    # the tolerance: float rounding at an ill-conditioned model (outside the exact-arithmetic claim) or an encoding mismatch.
+                    # Other models of the same path decide: if one of them passes, the first was rounding; if none does, it is reported.
+                    if first_goalfail is None:
+                        first_goalfail = (info, vals, tables)
+                    attempt += 1
+                    if attempt > VALIDATION_RETRIES:
+                        break
+                    m = _another_model(ctx, vals)
+                    continue
                 if outcome != 'mismatch':
                     break
                 if first_mismatch is None:
@@ -550,6 +568,12 @@ def run_job(job, seed=0):
             if m is None and first_mismatch is not None:
                 outcome, info = 'mismatch', first_mismatch[0]
                 vals = first_mismatch[1]
+            if first_goalfail is not None:
+                if outcome == 'validated':
+                    summ['goal_missed_by_float_rounding_at_one_model'] = summ.get('goal_missed_by_float_rounding_at_one_model', 0) + 1
+                else:
+                    outcome, info = 'violation', first_goalfail[0]
+                    vals, tables = first_goalfail[1], first_goalfail[2]
             if outcome == 'validated':
                 summ['validated'] += 1
                 if attempt:
@@ -816,7 +840,7 @@ def match_known(pid, viol, known):
 
 
 def write_replay(pid, n, module, viol):
-    d = os.path.join(VERIF, 'evidence', 'replays')
+    d = os.path.join(EVIDENCE_DIR, 'replays')
     os.makedirs(d, exist_ok=True)
     p = os.path.join(d, '%s-%d.json' % (pid, n))
     json.dump({'property': pid, 'harness_module': module, 'job': viol['job'], 'label': viol['label'],
@@ -905,6 +929,7 @@ def main_check(pid, module, tier, jobs, meta, procs=None):
             'forking_branches': tot('branches'), 'implied_branches': tot('implied'),
             'int_realizations': tot('realizations'), 'infeasible_paths_pruned': tot('infeasible'),
             'validation_skipped_rounding': tot('validation_skipped'),
+            'proved_goals_missed_by_float_rounding_at_one_model_but_not_at_others': tot('goal_missed_by_float_rounding_at_one_model'),
             'expected_exceptions_paths': tot('expected_raises'),
             'paths_cut_at_decision_bound': tot('cut_paths'),
             'jobs': len(summaries), 'exhaustive': all(s.get('exhausted', False) for s in summaries),
@@ -922,8 +947,8 @@ def main_check(pid, module, tier, jobs, meta, procs=None):
         'wall_s': round(time.time() - t0, 2),
         'violations': len(viol_new),
     }
-    os.makedirs(os.path.join(VERIF, 'evidence'), exist_ok=True)
-    with open(os.path.join(VERIF, 'evidence', '%s.json' % pid), 'w') as f:
+    os.makedirs(EVIDENCE_DIR, exist_ok=True)
+    with open(os.path.join(EVIDENCE_DIR, '%s.json' % pid), 'w') as f:
         json.dump(ev, f, indent=1, default=str)
     print('%s %s: jobs=%d paths=%d decisions=%d obligations=%d discharged=%d queries=%d solver_s=%.1f validated=%d wall=%.1fs' % (
         pid, tier, len(summaries), ev['coverage']['states'], ev['coverage']['transitions'], obligations,
